@@ -241,13 +241,17 @@ macro_rules! notified_impl { ($name:ident, $krate:ident) => {
 fn $name(depth: usize) -> i32 {
     use futures_util::Stream as _;
     use $krate::notified::{Once, State, Stream};
-    fn poll_stream(s: &mut Stream<u32>) -> std::task::Poll<Option<$krate::Reply<u32>>> {
-        use std::task::{Context, Wake, Waker};
-        struct Noop;
-        impl Wake for Noop { fn wake(self: std::sync::Arc<Self>) {} }
-        let w = Waker::from(std::sync::Arc::new(Noop));
-        let mut cx = Context::from_waker(&w);
+    // every poll hands the stream a waker that counts its wake-ups: a subscriber that was told Pending must be WOKEN when
+    // a newer value is set (otherwise a task awaiting the stream sleeps forever: "always eventually the most recent")
+    struct Wakes(std::sync::atomic::AtomicUsize);
+    impl std::task::Wake for Wakes { fn wake(self: std::sync::Arc<Self>) { self.0.fetch_add(1, std::sync::atomic::Ordering::SeqCst); } }
+    fn poll_stream_w(s: &mut Stream<u32>, w: &std::sync::Arc<Wakes>) -> std::task::Poll<Option<$krate::Reply<u32>>> {
+        let waker = std::task::Waker::from(w.clone());
+        let mut cx = std::task::Context::from_waker(&waker);
         std::pin::Pin::new(s).poll_next(&mut cx)
+    }
+    fn poll_stream(s: &mut Stream<u32>) -> std::task::Poll<Option<$krate::Reply<u32>>> {
+        poll_stream_w(s, &std::sync::Arc::new(Wakes(std::sync::atomic::AtomicUsize::new(0))))
     }
     // ops: 0 = set, 1 = subscribe, 2.. = poll subscriber (op - 2)
     let mut seq = vec![0usize; 0];
@@ -255,10 +259,13 @@ fn $name(depth: usize) -> i32 {
     fn run(ops: &[usize]) -> Result<(), String> {
         let mut state: State<u32, u32> = State::new(0);
         let mut next = 1u32;
-        let mut subs: Vec<(Stream<u32>, Vec<u32>, u32)> = Vec::new();   // stream, values seen, value counter at subscription
-        let step = |subs: &mut Vec<(Stream<u32>, Vec<u32>, u32)>, i: usize| -> Result<bool, String> {
-            let (s, seen, since) = &mut subs[i];
-            match poll_stream(s) {
+        // stream, values seen, value counter at subscription, its waker, Some(wake count) while parked (last poll said Pending)
+        let mut subs: Vec<(Stream<u32>, Vec<u32>, u32, std::sync::Arc<Wakes>, Option<usize>)> = Vec::new();
+        let step = |subs: &mut Vec<(Stream<u32>, Vec<u32>, u32, std::sync::Arc<Wakes>, Option<usize>)>, i: usize| -> Result<bool, String> {
+            let (s, seen, since, w, parked) = &mut subs[i];
+            let r = poll_stream_w(s, w);
+            *parked = if r.is_pending() { Some(w.0.load(std::sync::atomic::Ordering::SeqCst)) } else { None };
+            match r {
                 std::task::Poll::Ready(Some(r)) => {
                     if r.continues() != Some(true) { return Err(format!("subscriber {i}: item {:?} is not marked continues=true", r.parameters())); }
                     let v = *r.parameters().ok_or("item without value")?;
@@ -273,8 +280,14 @@ fn $name(depth: usize) -> i32 {
         };
         for &op in ops {
             match op {
-                0 => { if poll_once(state.set(next)).is_none() { return Err("State::set did not complete at once".into()); } if state.get() != next { return Err("get() is not the value just set".into()); } next += 1; }
-                1 => { if subs.len() < 3 { let s = state.stream(); subs.push((s, Vec::new(), next - 1)); } }
+                0 => { if poll_once(state.set(next)).is_none() { return Err("State::set did not complete at once".into()); } if state.get() != next { return Err("get() is not the value just set".into()); } next += 1;
+                       for (i, (_, _, _, w, parked)) in subs.iter_mut().enumerate() {
+                           if let Some(at) = *parked {
+                               if w.0.load(std::sync::atomic::Ordering::SeqCst) == at { return Err(format!("subscriber {i} was told Pending and was NOT woken by the set that followed (lost wake-up: a task awaiting it never sees the new value)")); }
+                               *parked = None;
+                           }
+                       } }
+                1 => { if subs.len() < 3 { let s = state.stream(); subs.push((s, Vec::new(), next - 1, std::sync::Arc::new(Wakes(std::sync::atomic::AtomicUsize::new(0))), None)); } }
                 k => { let i = k - 2; if i < subs.len() { step(&mut subs, i)?; } }
             }
         }
@@ -282,7 +295,7 @@ fn $name(depth: usize) -> i32 {
             let mut n = 0;
             while step(&mut subs, i)? { n += 1; if n > 100 { return Err("endless items".into()); } }
             let latest = next - 1;
-            let (_, seen, since) = &subs[i];
+            let (_, seen, since, _, _) = &subs[i];
             if latest > *since && seen.last() != Some(&latest) {
                 return Err(format!("subscriber {i} (subscribed after value {since}) was drained but its last item is {:?}, not the most recent value {latest}", seen.last()));
             }
@@ -310,8 +323,10 @@ fn $name(depth: usize) -> i32 {
     let once = |notify_first: bool, drop_notifier: bool| -> Result<(), String> {
         let (tx, mut s): (Once<u32>, Stream<u32>) = Once::new();
         let mut tx = Some(tx);
-        if !notify_first { if !matches!(poll_stream(&mut s), std::task::Poll::Pending) { return Err("one-shot: ready before any notification".into()); } }
+        let w = std::sync::Arc::new(Wakes(std::sync::atomic::AtomicUsize::new(0)));
+        if !notify_first { if !matches!(poll_stream_w(&mut s, &w), std::task::Poll::Pending) { return Err("one-shot: ready before any notification".into()); } }
         if drop_notifier { drop(tx.take()); } else { tx.take().unwrap().notify(7u32); }
+        if !notify_first && w.0.load(std::sync::atomic::Ordering::SeqCst) == 0 { return Err(format!("one-shot (dropped={drop_notifier}): the stream was told Pending and was not woken by the notification")); }
         match poll_stream(&mut s) {
             std::task::Poll::Ready(Some(r)) if !drop_notifier => { if r.continues() != Some(false) || r.parameters() != Some(&7) { return Err(format!("one-shot reply wrong: {:?} continues={:?}", r.parameters(), r.continues())); } }
             std::task::Poll::Ready(None) if drop_notifier => {}
